@@ -133,8 +133,8 @@ func coqStep(st Step) string {
 			return vcoq.App("Ret", vcoq.App("RetPlain", vcoq.Int(st.Msg)))
 		}
 		return vcoq.App("Ret", vcoq.App("RetStatus", vcoq.Int(st.Code), vcoq.Int(st.Msg)))
-	case "Cancel":
-		return vcoq.App("Cancel", vcoq.Bool(st.DL))
+	case "Cancel", "CtxEnd":
+		return vcoq.App(st.K, vcoq.Bool(st.DL))
 	}
 	return st.K // CloseSend RecvEOF CHeader
 }
@@ -309,7 +309,41 @@ func (g *genState) pick(r *vcoq.Rand) (Step, bool) {
 	return Step{}, false
 }
 
+// what a handler may still do once the client's context has ended, up to its return
+func (g *genState) afterEnd(r *vcoq.Rand, dl bool) []Step {
+	out := []Step{{K: "CtxEnd", DL: dl}}
+	for i, n := 0, r.Range(0, 3); i < n; i++ {
+		switch r.Intn(6) {
+		case 0:
+			out = append(out, Step{K: "SetH", MD: genMD(r)})
+		case 1:
+			if g.sent || r.Chance(35) { // unsent headers sent now: recorded class 4
+				out = append(out, Step{K: "SendH", MD: genMD(r)})
+				g.sent = true
+			}
+		case 2:
+			md := [][2]int{}
+			if r.Chance(25) { // recorded class 1
+				md = genMD(r)
+			}
+			out = append(out, Step{K: "SetT", MD: md})
+		case 3, 4:
+			if srvHasStream(g.shape) {
+				out = append(out, Step{K: "S2C", M: r.Range(1, 99)})
+			}
+		case 5:
+			if srvHasStream(g.shape) && !g.half {
+				out = append(out, Step{K: "RecvEOF"})
+			}
+		}
+	}
+	return append(out, genRet(r, 50))
+}
+
 func (g *genState) ending(r *vcoq.Rand) []Step {
+	if r.Chance(12) && !g.infl {
+		return g.afterEnd(r, r.Chance(40))
+	}
 	if r.Chance(22) && !g.infl {
 		return []Step{{K: "Cancel", DL: r.Chance(40)}}
 	}
@@ -345,7 +379,7 @@ func genRandom(r *vcoq.Rand, shape string) Scenario {
 // systematic: n messages, one event at each position
 func genSystematic(r *vcoq.Rand) []Scenario {
 	var out []Scenario
-	events := []string{"SetH", "SendH", "SetT", "RetErr", "Cancel", "Deadline", "CloseSend", "SetH+SetH", "SendH+SetH", "CHeader"}
+	events := []string{"SetH", "SendH", "SetT", "RetErr", "Cancel", "Deadline", "CloseSend", "SetH+SetH", "SendH+SetH", "CHeader", "CtxEnd"}
 	for _, shape := range shapes {
 		maxN := 5
 		if !srvHasStream(shape) {
@@ -403,6 +437,15 @@ func genSystematic(r *vcoq.Rand) []Scenario {
 							sc.Steps = append(sc.Steps, Step{K: "SetH", MD: [][2]int{{r.Intn(nKeys), r.Range(1, 9)}}})
 						}
 						sc.Steps = append(sc.Steps, Step{K: "Cancel", DL: ev == "Deadline"})
+						terminal = true
+					case "CtxEnd":
+						if g.infl {
+							continue
+						}
+						if r.Chance(40) { // headers pending at the end: they must never show
+							sc.Steps = append(sc.Steps, Step{K: "SetH", MD: [][2]int{{r.Intn(nKeys), r.Range(1, 9)}}})
+						}
+						sc.Steps = append(sc.Steps, g.afterEnd(r, r.Bool())...)
 						terminal = true
 					case "CloseSend":
 						if !clientStreams(shape) {
@@ -496,6 +539,9 @@ func tagsOf(sc Scenario) []string {
 		if st.K == "Cancel" && st.DL {
 			k = "Deadline"
 		}
+		if st.K == "CtxEnd" && st.DL {
+			k = "CtxEnd-deadline"
+		}
 		if st.K == "Ret" {
 			switch {
 			case st.Ok:
@@ -558,6 +604,12 @@ func genC13(o *vcoq.Out, r *vcoq.Rand, tier string) error {
 	}
 	leaks, nStuck := 0, 0
 	branchesHit := map[string]int{}
+	nGuard := 0
+	for _, sc := range scs {
+		if inFragment(sc) {
+			nGuard++
+		}
+	}
 	for _, sc := range scs {
 		if nStuck >= 5 {
 			o.Directs = append(o.Directs, vcoq.Direct{What: "calls keep getting stuck (a step did not complete within its time limit); the run was cut short",
@@ -606,6 +658,7 @@ func genC13(o *vcoq.Out, r *vcoq.Rand, tier string) error {
 	}
 	lookupCases(o, w, g)
 	misuseCases(o, w, g)
+	callerIncomingCases(o)
 	unwrapCases(o, r)
 	sendThenModifyCases(o, r, nIsoSend(tier))
 	o.Extra["model_branch_classes_hit"] = len(branchesHit)
@@ -616,7 +669,8 @@ func genC13(o *vcoq.Out, r *vcoq.Rand, tier string) error {
 	isolationCases(o, r, nIso)
 	abandonCases(o)
 	o.Extra["coverage_extra"] = map[string]any{"transports": []string{"wrap.ServerToClient", "grpc.Server over bufconn"}, "goroutine_checks": len(scs), "deep_isolation_checks": nIso,
-		"send_then_modify_checks": 4 * nIsoSend(tier), "model_branch_classes_hit": len(branchesHit), "client_misuse_cases": 2, "unwrap_cases": 14}
+		"send_then_modify_checks": 4 * nIsoSend(tier), "model_branch_classes_hit": len(branchesHit), "client_misuse_cases": 2, "unwrap_cases": 14,
+		"guard_pass_rate": fmt.Sprintf("%d of %d call scenarios satisfy the theorems' guard wf (Go replica of C13Judge.wf; the generator stays inside the fragment by construction)", nGuard, len(scs))}
 	return nil
 }
 
